@@ -39,15 +39,30 @@ pub struct LazyFunctions {
 
 impl LazyFunctions {
     pub fn get(&self) -> std::sync::MutexGuard<'_, Option<FunctionsStore>> {
+        #[cfg(bc_envelope_verif)]
+        crate::verif_hooks::emit("once_enter", "FN");
         self.init.call_once(|| {
+            #[cfg(bc_envelope_verif)]
+            crate::verif_hooks::emit("once_run_begin", "FN");
             let m = FunctionsStore::new([
                 ADD,
                 SUB,
                 MUL,
                 DIV,
             ]);
+            #[cfg(bc_envelope_verif)]
+            crate::verif_hooks::emit("blip", "FN");
             *self.data.lock().unwrap() = Some(m);
+            #[cfg(bc_envelope_verif)]
+            crate::verif_hooks::emit("once_run_end", "FN");
         });
+        #[cfg(bc_envelope_verif)]
+        {
+            let guard = self.data.lock().unwrap();
+            crate::verif_hooks::emit("acq", "FN");
+            return guard;
+        }
+        #[cfg(not(bc_envelope_verif))]
         self.data.lock().unwrap()
     }
 }
